@@ -43,6 +43,9 @@ def gen_cases(prop, tier, rnd):
         L3 = intervals.strict_lists(5, 3, 3)
         for _ in range(3000 if q else 60000):
             cases.append(("intersect", rnd.choice(L3), rnd.choice(L3), True))
+        for _ in range(400 if q else 8000):
+            a, b = spanning(rnd)
+            cases.append(("intersect", a, b, True) if rnd.random() < 0.5 else ("intersect", b, a, True))
         U = intervals.any_lists(3, 2, 2)
         up = [(a, b) for a in U for b in U]
         rnd.shuffle(up)
@@ -71,7 +74,26 @@ def gen_cases(prop, tier, rnd):
         L3 = intervals.strict_lists(6, 3, 3, labels=("x",))
         for _ in range(4000 if q else 80000):
             cases.append(("uno", rnd.choice(L3), rnd.choice(L3)))
+        for _ in range(600 if q else 12000):
+            a, b = spanning(rnd)
+            cases.append(("uno", a, b) if rnd.random() < 0.5 else ("uno", b, a))
     return cases
+
+
+def spanning(rnd):
+    """many short events (some zero-length, some touching) and a few long ones spanning several of them"""
+    k = rnd.randint(3, 7)
+    short, t = [], rnd.choice([0, 1, 2])
+    for _ in range(k):
+        u = rnd.choice([0, 1, 1, 2])
+        short.append((t, u, "x"))
+        t += u + rnd.choice([0, 1, 2])
+    longs, s0 = [], rnd.choice([0, 0, 1, short[0][0] + 1])
+    for _ in range(rnd.choice([1, 1, 2])):
+        ln = rnd.randint(2, max(3, t - s0 + 2))
+        longs.append((s0, ln, "y"))
+        s0 += ln + rnd.choice([0, 1])
+    return short, longs
 
 
 def run(prop, tier, seed, replay=None):
